@@ -202,7 +202,7 @@ def cp_unit(nins):
 
                 def conc(m, p):
                     fr = lambda t: str(Fraction(m.eval(t, model_completion=True).numerator_as_long(), m.eval(t, model_completion=True).denominator_as_long()))
-                    return dict(replay="c04_cp", key="cp", args=dict(lat=[fr(x) for x in lat], lwl=[fr(x) for x in lwl], loads=list(loads),
+                    return dict(replay="c04_cp", key="cp", args=dict(twice=twice, lat=[fr(x) for x in lat], lwl=[fr(x) for x in lwl], loads=list(loads),
                                                                     edges=[[a, b, fr(w)] for (a, b), w in ew.items()]))
 
                 res.add_paths(paths, post, concretize=conc, kind=f"n{nins}/loads{''.join('1' if x else '0' for x in loads)}/edges{''.join('1' if x else '0' for x in emask)}{'/second-call' if twice else ''}", label="Pb")
